@@ -251,3 +251,83 @@ func init() {
 		println(strings.Join(ks, " "))
 	}
 }
+
+// width.suffix (C02): in a switch whose case labels are the bit widths 8, 16,
+// 32, 64 (the tag is computed from a scalar's Width), the SPIR-V capability
+// constants named in the arm for width N carry N in their name (Float16, Int16,
+// StorageBuffer16BitAccess, Int64 ...) and no other of those widths - declaring
+// Float64 for a 16-bit float leaves OpTypeFloat 16 without its capability.
+func (c *Ctx) runWidthSuffix(r *Report, rule string, pkgRel, constType string) {
+	n := 0
+	widths := []string{"8", "16", "32", "64"}
+	for _, fn := range c.allFuncs() {
+		if !inPkgs(pkgRel)(fn.Pkg.Rel) {
+			continue
+		}
+		info := fn.Pkg.Info
+		ord := 0
+		ast.Inspect(fn.Decl.Body, func(m ast.Node) bool {
+			sw, ok := m.(*ast.SwitchStmt)
+			if !ok || sw.Tag == nil {
+				return true
+			}
+			if tv, ok := info.Types[sw.Tag]; !ok || tv.Type == nil {
+				return true
+			} else if b, ok := tv.Type.Underlying().(*types.Basic); !ok || b.Info()&types.IsInteger == 0 {
+				return true
+			}
+			ord++
+			for _, cl := range sw.Body.List {
+				cc := cl.(*ast.CaseClause)
+				if len(cc.List) != 1 {
+					continue
+				}
+				w, ok := constInt(info, cc.List[0])
+				if !ok || (w != 8 && w != 16 && w != 32 && w != 64) {
+					continue
+				}
+				for _, word := range armWords(info, cc.Body, nil) {
+					// only constants of the given type
+					isConst := false
+					for _, nm := range c.constNamesOfType(pkgRel, constType) {
+						if nm == word {
+							isConst = true
+						}
+					}
+					if !isConst {
+						continue
+					}
+					var has []string
+					for _, ws := range widths {
+						if idx := strings.Index(word, ws); idx >= 0 {
+							// "16" inside "16BitAccess" or at the end; avoid matching 6 in 64 etc. by exact digit runs
+							run := ""
+							for i := idx; i < len(word) && word[i] >= '0' && word[i] <= '9'; i++ {
+								run += string(word[i])
+							}
+							pre := idx > 0 && word[idx-1] >= '0' && word[idx-1] <= '9'
+							if run == ws && !pre {
+								has = append(has, ws)
+							}
+						}
+					}
+					if len(has) == 0 {
+						continue
+					}
+					n++
+					cons := fn.id() + ":width" + itoa(w) + ":" + word
+					if ord > 1 {
+						cons += "#" + itoa(ord)
+					}
+					if len(has) == 1 && has[0] == itoa(w) {
+						r.ok(rule, cons, c.pos(cc.Pos()), "")
+					} else {
+						r.viol(rule, cons, c.pos(cc.Pos()), fn.id()+" names "+word+" in the arm for bit width "+itoa(w)+": the capability of another width is declared, the one this width needs is not")
+					}
+				}
+			}
+			return true
+		})
+	}
+	r.inst("width.suffix", n)
+}
